@@ -1,4 +1,5 @@
 import TTModel.C04_Subst
+import TTGen.C04Options
 import TTGen.C04Tables
 import TTProofs.Lemmas.C04_Builders
 import TTProofs.Lemmas.C04_JC
@@ -338,5 +339,21 @@ theorem p_t_symmetric_family {n : Nat} (Rm : Mat n ℝ) (π e : Fin n → ℝ) (
   refine ⟨hrows, hnn, fun j => ?_, hbal⟩
   calc ∑ i, π i * P i j = ∑ i, π j * P j i := Finset.sum_congr rfl fun i _ => hbal i j
     _ = π j := by rw [← Finset.mul_sum]; simp only [← toM_apply]; rw [hrows j, mul_one]
+
+
+/-! ## construction route: `from_json` (table regenerated from the source on every run) -/
+
+/-- a JSON key reaches the constructor parameter it names; when an optional key is absent, what is
+forwarded is the constructor's own default for that parameter, or — if the constructor has no
+default — something other than `None` -/
+def optionEntryOk (e : TTGen.C04Options.Entry) : Bool :=
+  e.reached == e.expected &&
+    (!e.optional || (match e.ctorDefault with | some d => e.absent == d | none => e.absent != 0))
+
+/-- **options_reach_named_parameters**: the translator recognised every `from_json`, and in each of them
+every key (required or optional, positional or keyword) lands in the constructor parameter of its name -/
+theorem options_reach_named_parameters :
+    TTGen.C04Options.translatorOk = true ∧ TTGen.C04Options.entries.all optionEntryOk = true := by
+  decide
 
 end TTProps.C04
